@@ -370,14 +370,37 @@ def oracle(case, impl, spec):
     return None
 
 
+EXACT_CAPACITY = [True]      # set by run(): False when tools/genx_seq.py did not recognise the capacity policy
+
+
+def raised(out):
+    return not (out in ('new', 'ok', 'end', 'true', 'false') or (out[:1] == 'v' and out[1:].lstrip('-').isdigit()))
+
+
 def corr(case, impl, model):
+    """implementation vs model, field by field.  The Array capacity (last field of a full dump) is tuning,
+    not contents: it is compared exactly only while the capacity policy was read from the source and no
+    operation of the case has raised so far (what a FAILED operation does to the capacity is nobody's
+    business); otherwise it only has to be admissible: nslots >= len."""
     if impl == model:
         return None
     a, b = steps(impl), steps(model)
+    exact = EXACT_CAPACITY[0]
     for n, (x, y) in enumerate(zip(a, b)):
+        if raised(x.split(';')[0]):
+            exact = False
         if x != y:
-            return 'step %d: implementation %s / model %s' % (n, x, y)
-    return 'length %d vs %d' % (len(a), len(b))
+            fx, fy = x.split(';'), y.split(';')
+            if case[0] == 'A' and len(fx) == 7 and len(fy) == 7 and fx[:6] == fy[:6] and fx[6].isdigit() and fx[1].isdigit():
+                if exact:
+                    return 'step %d: capacity %s, the model (policy read from the source) says %s: %s' % (n, fx[6], fy[6], x)
+                if int(fx[6]) < int(fx[1]):
+                    return 'step %d: capacity %s below len %s: %s' % (n, fx[6], fx[1], x)
+            else:
+                return 'step %d: implementation %s / model %s' % (n, x, y)
+    if len(a) != len(b):
+        return 'length %d vs %d' % (len(a), len(b))
+    return None
 
 
 def nontrivial(case, impl):
@@ -459,6 +482,14 @@ def run(ctx):
         'keys are int64; elements are Int values (Tuple: distinct heap Int objects); a wrong-typed element is outside the model',
         'realloc keeps the common prefix; memmove/memcpy move whole element records']
     ctx.coq()
+    try:
+        gen = open(os.path.join(vlib.COQ, 'Generated.v')).read()
+    except OSError:
+        gen = ''
+    EXACT_CAPACITY[0] = 'array_policy_from_source : bool := true' in gen
+    if not EXACT_CAPACITY[0]:
+        ctx.notes.append('Array capacity policy not recognised by tools/genx_seq.py: the models run with the pinned policy and the '
+                         'capacity is compared for admissibility only (nslots >= len after every operation)')
     drv = ctx.build_driver('Seq')
     h = ctx.build_harness('seq_wb.c', whitebox=['Array', 'List'], extra=list_cursor_flags(ctx))
     run_impl = parallel(lambda cs: ctx.run_lines(h, cs)[1])
@@ -468,6 +499,14 @@ def run(ctx):
     rp = os.environ.get('VERIF_REPLAY')
     if rp:
         r = json.load(open(rp))
+        lit = dict(CORPUS_LITERAL)
+        if r.get('case') in lit:
+            got = run_impl([r['case']])[0]
+            nocap = lambda t: ' | '.join(';'.join(f.split(';')[:6]) for f in steps(t))
+            print('REPLAY: D21 witness %s\n  impl     %s\n  expected %s' % (r['case'], got, lit[r['case']]))
+            if nocap(got) != nocap(lit[r['case']]):
+                ctx.violation('seq_d21_witness', dict(r, impl=got))
+            return
         d.feed([r['case']] if 'case' in r else CORPUS)
         for x in d.oracle_fail + d.corr_fail:
             print('REPLAY: %s\n  impl  %s\n  model %s\n  spec  %s' % (x[4], x[1], x[2], x[3]))
@@ -495,11 +534,15 @@ def run(ctx):
 
     d.feed(CORPUS, 'corpus')
     lit = run_impl([c for c, _ in CORPUS_LITERAL])
+    nocap = lambda t: ' | '.join(';'.join(f.split(';')[:6]) for f in steps(t))     # capacity is tuning
     for (c, want), got in zip(CORPUS_LITERAL, lit):
         ctx.cov['evaluations'] += 1
-        if got != want:
+        if nocap(got) != nocap(want):
             ctx.notes.append('D21 witness %s: got %s' % (c, got))
-            d.corr_fail.append((c, got, want, None, 'D21 witness (wrong-typed element): implementation %s / expected %s' % (got, want)))
+            ctx.violation('seq_d21_witness', {
+                'kind': 'witness of a repaired defect (wrong-typed element, outside the model) no longer behaves as repaired',
+                'harness': 'seq', 'case': c, 'impl': got, 'expected': want,
+                'why': 'D21 witness: implementation %s / expected (modulo capacity) %s' % (got, want)})
 
     per = 2000 if quick else 34000
     maxops = 60
